@@ -49,11 +49,12 @@ Theorem hist_tail xs ys k :
 Proof. intros E Hx Hy. rewrite !hist_of_firstn_lt by assumption. now rewrite E. Qed.
 
 (* truncating after k observations: entries 1..k-1 unchanged, entry k unchanged or lowered to 0 *)
-Theorem hist_truncate xs k :
+Theorem hist_truncate_strong xs k :
   (1 <= k <= length xs)%nat ->
   firstn (k - 1) (hist_of (firstn k xs)) = firstn (k - 1) (hist_of xs)
   /\ (nth_error (hist_of (firstn k xs)) (k - 1) = nth_error (hist_of xs) (k - 1)
-      \/ nth_error (hist_of (firstn k xs)) (k - 1) = Some (Fin 0)).
+      \/ ((k < length xs)%nat /\ stot_exceeds N t (firstn k xs) = true
+          /\ nth_error (hist_of (firstn k xs)) (k - 1) = Some (Fin 0))).
 Proof.
   intros [Hk1 Hk2].
   assert (Hlen : length (firstn k xs) = k) by (rewrite firstn_length; lia).
@@ -67,11 +68,19 @@ Proof.
       { rewrite <- (hist_of_firstn_lt xs k Hlt). symmetry. apply nth_error_firstn_lt. lia. }
       unfold hist_of at 1 3, finish_terms; cbn [snd]. fold pv.
       destruct (stot_exceeds N t (firstn k xs)).
-      * right. rewrite nth_error_map.
+      * right. split; auto. split; auto. rewrite nth_error_map.
         pose proof (nth_error_set_last_last (terms_fn (firstn k xs)) PInf) as HL.
         rewrite terms_len, Hlen in HL. rewrite HL; [reflexivity|].
         intro E. pose proof (terms_len (firstn k xs)) as HL2. rewrite E, Hlen in HL2. simpl in HL2. lia.
       * left. rewrite Hfull. reflexivity.
+Qed.
+Theorem hist_truncate xs k :
+  (1 <= k <= length xs)%nat ->
+  firstn (k - 1) (hist_of (firstn k xs)) = firstn (k - 1) (hist_of xs)
+  /\ (nth_error (hist_of (firstn k xs)) (k - 1) = nth_error (hist_of xs) (k - 1)
+      \/ nth_error (hist_of (firstn k xs)) (k - 1) = Some (Fin 0)).
+Proof.
+  intro H. destruct (hist_truncate_strong xs k H) as [H1 [H2|[_ [_ H2]]]]; auto.
 Qed.
 End Generic.
 
